@@ -3,6 +3,7 @@
 package impl
 
 import (
+	ppb "github.com/google/fhir/go/proto/google/fhir/proto/r4/core/resources/patient_go_proto"
 	"github.com/shopspring/decimal"
 	"math"
 
@@ -242,6 +243,14 @@ func VerifHarness_C10_Extension() {
 	}
 	arg := verifLit(system.String(u))
 	input := system.Collection{el}
+	if verifrt.NondetBool("backbone") {
+		// a backbone element: its modifierExtension list is another element - extension(u) is extension.where(url = u)
+		contact := &ppb.Patient_Contact{Extension: el.Extension}
+		for i := 0; i < verifrt.Choose("modifiers", 2); i++ {
+			contact.ModifierExtension = append(contact.ModifierExtension, &dtpb.Extension{Url: &dtpb.Uri{Value: verifrt.NondetString("murl", 2)}})
+		}
+		input = system.Collection{contact}
+	}
 	if verifrt.NondetBool("emptyUrl") {
 		// extension({}) = extension.where(url = {}): nothing is selected, whatever the input (an empty one included)
 		arg, want = &expr.LiteralExpression{}, nil
